@@ -50,8 +50,60 @@ def run(ctx):
     rule_round_trip(ctx, repo)
     rule_ids(ctx, repo)
     rule_errors(ctx, repo)
+    rule_handlers(ctx, repo)
     ctx.not_decided += ['exactness of float(amount)/COIN -> JSON number -> server (numerical)', 'HTTP transport behaviour']
     ctx.assume('json.loads(parse_float=Decimal) yields exact decimals; Decimal * int is exact')
+
+
+def rule_handlers(ctx, repo):
+    """the proxy methods that turn one node error into a Python exception (getblock, getblockhash, getblockheader,
+    getrawtransaction ...: "not found" -> IndexError) catch exactly the error class the confirmed method catches: a wider
+    class converts replies that must raise the class registered for their code, a narrower one lets the reply through
+    unconverted"""
+    from .. import delta
+    from ..model import ClassRef
+    r = ctx.rule('C19.H1', 'handlers of the proxy methods catch the error classes of the confirmed methods: neither wider nor narrower', engine='RESOLVE', floor=3)
+    inv = delta.inventory()
+    known = inv['modules'].get('bitcoin.rpc', {}).get('functions', {})
+    n = 0
+    for q, k in sorted(known.items()):
+        fi = repo.functions.get(q)
+        if fi is None or not k.get('source') or '.Proxy.' not in q and '.BaseProxy.' not in q:
+            continue
+        try:
+            old = ast.parse(k['source']).body[0]
+        except SyntaxError:
+            continue
+        oh = [h for h in ast.walk(old) if isinstance(h, ast.ExceptHandler) and h.type is not None]
+        nh = [h for h in ast.walk(fi.node) if isinstance(h, ast.ExceptHandler) and h.type is not None]
+        if not oh:
+            continue
+        if len(oh) != len(nh):
+            if len(nh) < len(oh):
+                r.undecided('handlers:%s' % fi.name, fi.site, '%s has %d exception handlers, the confirmed method %d' % (fi.name, len(nh), len(oh)))
+            continue
+        for ho, hn in zip(oh, nh):
+            n += 1
+            to, tn = norm(ho.type), norm(hn.type)
+            key = 'handler:%s:%s' % (fi.name, to[:30])
+            if to == tn:
+                r.ok(key, common.site_of(fi, hn), 'catches %s' % to)
+                continue
+            co, cn = repo.fold(ho.type, fi.module, cls=fi.cls), repo.fold(hn.type, fi.module, cls=fi.cls)
+            if isinstance(co, ClassRef) and isinstance(cn, ClassRef):
+                if co.info is cn.info:
+                    r.ok(key, common.site_of(fi, hn), '%s is %s' % (tn, to))
+                elif repo.is_subclass(co.info, cn.info):
+                    r.violated(key, common.site_of(fi, hn), '%s catches `%s`, a base class of the confirmed `%s`: every other error reply of the node (each has its own registered class) is now '
+                               'converted as well instead of being raised as that class' % (fi.name, tn, to), sure=True)
+                elif repo.is_subclass(cn.info, co.info):
+                    r.violated(key, common.site_of(fi, hn), '%s catches only `%s`, a subclass of the confirmed `%s`: the other errors of that class are no longer converted' % (fi.name, tn, to), sure=True)
+                else:
+                    r.violated(key, common.site_of(fi, hn), '%s catches `%s` where the confirmed method catches the unrelated `%s`: the error it converted now escapes unconverted' % (fi.name, tn, to), sure=True)
+            else:
+                r.undecided(key, common.site_of(fi, hn), '%s catches `%s`, the confirmed method `%s`; the classes were not resolved' % (fi.name, tn, to))
+    if n == 0:
+        r.undecided('handlers', 'bitcoin/rpc.py:0', 'no handler of a confirmed proxy method found')
 
 
 def rule_decimal(ctx, repo):
